@@ -93,6 +93,8 @@ def subblocks(s):
         return [s[1], s[2]]
     if k in ("while", "for"):
         return [s[1], s[2]]
+    if k == "forlit":
+        return [s[-2], s[-1]]
     if k == "whiletrue":
         return [s[1]]
     if k == "with":
@@ -100,6 +102,31 @@ def subblocks(s):
     if k == "try":
         return [s[1], *s[2], s[3], s[4]]
     return []
+
+
+def extify(block, rng):
+    """widen a skeleton beyond the model grammar: some for-loops become `for v in (K,):` -- a loop
+    over a one-element literal tuple: always entered, and the target v is bound to the literal K"""
+    out = []
+    for s in block:
+        k = s[0]
+        if k == "if":
+            s = ("if", extify(s[1], rng), extify(s[2], rng))
+        elif k in ("while", "for"):
+            b, e = extify(s[1], rng), extify(s[2], rng)
+            s = ("forlit", rng.choice("xy"), b, e) if rng.random() < 0.6 else (k, b, e)
+        elif k == "whiletrue":
+            s = (k, extify(s[1], rng))
+        elif k == "with":
+            s = (k, s[1], extify(s[2], rng))
+        elif k == "try":
+            s = (k, extify(s[1], rng), [extify(h, rng) for h in s[2]], extify(s[3], rng), extify(s[4], rng))
+        out.append(s)
+    return out
+
+
+def in_model_grammar(block):
+    return all(s[0] != "forlit" and all(in_model_grammar(b) for b in subblocks(s)) for s in block)
 
 
 def size(block):
@@ -164,6 +191,16 @@ def number(block, ctr, ind, out, mode="analysis"):
                 out.append(f"{pad}else:")
                 e = number(s[2], ctr, ind + 1, out, mode)
             res.append((k, b, e))
+        elif k == "forlit":
+            ctr[0] += 1
+            lit = ctr[0]
+            out.append(f"{pad}for {s[1]} in ({lit},):")
+            b = number(s[-2], ctr, ind + 1, out, mode)
+            e = []
+            if s[-1]:
+                out.append(f"{pad}else:")
+                e = number(s[-1], ctr, ind + 1, out, mode)
+            res.append(("forlit", s[1], lit, b, e))
         elif k == "whiletrue":
             out.append(f"{pad}while True:" if mode == "analysis" else f"{pad}while _tick():")
             b = number(s[1], ctr, ind + 1, out, mode)
@@ -193,14 +230,17 @@ def number(block, ctr, ind, out, mode="analysis"):
     return res
 
 
-def render(block, name="f", mode="analysis"):
+def render(block, name="f", mode="analysis", global_x=False):
     """-> (numbered block, source lines of the function; use ids = 1-based line in this list)"""
     out = [f"def {name}():"]
+    if global_x:
+        out.append("    global x")
     nb = number(block, [0], 1, out, mode)
     return nb, out
 
 
 PRELUDE = '''\
+gx = 0
 def cond() -> bool: return True
 def seq() -> list[int]: return []
 def g() -> None: pass
@@ -431,6 +471,38 @@ class Flow:
             if self.mode == "liberal":
                 after = _join(after, H)
             r["norm"] = after
+        elif k == "forlit":
+            # for v in (K,): -- exactly one round in CPython (strict); the liberal reading treats it
+            # like any loop (any number of rounds, zero included) whose head binds v to K
+            _, v, lit, body, orelse = s
+            bind = lambda env: {**env, v: frozenset([lit])}
+            if self.mode == "strict":
+                b = self.block(body, bind(E), intry)
+                r["ret"] = b["ret"]
+                r["exc"] = b["exc"]
+                after = b["brk"]
+                H = _joinall([b["norm"], b["cont"]])
+                if H is not None:
+                    e = self.block(orelse, H, intry)
+                    after = _join(after, e["norm"])
+                    for o in ("brk", "cont", "ret", "exc"):
+                        r[o] = _join(r[o], e[o])
+                r["norm"] = after
+            else:
+                H = E
+                while True:
+                    b = self.block(body, bind(H), intry)
+                    H2 = _joinall([H, b["norm"], b["cont"]])
+                    if H2 == H:
+                        break
+                    H = H2
+                b = self.block(body, bind(H), intry)
+                r["ret"] = b["ret"]
+                r["exc"] = b["exc"]
+                e = self.block(orelse, H, intry)
+                r["norm"] = _joinall([b["brk"], e["norm"], H])
+                for o in ("brk", "cont", "ret", "exc"):
+                    r[o] = _join(r[o], e[o])
         elif k == "with":
             b = self.block(s[2], E, True)
             for o in OUTS:
@@ -563,6 +635,9 @@ def free_jump(block):
         if k in ("while", "for"):
             if free_jump(s[2]):
                 return True
+        elif k == "forlit":
+            if free_jump(s[-1]):
+                return True
         elif k == "whiletrue":
             pass
         elif any(free_jump(b) for b in subblocks(s)):
@@ -576,6 +651,43 @@ def no_jump_through_finally(block):
             if free_jump(s[1]) or any(free_jump(h) for h in s[2]) or free_jump(s[3]) or free_jump(s[4]):
                 return False
         if not all(no_jump_through_finally(b) for b in subblocks(s)):
+            return False
+    return True
+
+
+def py_can_complete(s):
+    k = s[0]
+    if k in ("return", "raise", "break", "continue"):
+        return False
+    if k == "if":
+        return py_cc_b(s[1]) or py_cc_b(s[2])
+    if k == "whiletrue":
+        return False
+    if k == "with":
+        return py_cc_b(s[2]) or bool(s[1])
+    if k == "try":
+        return ((py_cc_b(s[1]) and py_cc_b(s[3])) or any(py_cc_b(h) for h in s[2])) and py_cc_b(s[4])
+    return True
+
+
+def py_cc_b(block):
+    return all(py_can_complete(s) for s in block)
+
+
+def py_upper_ok(block):
+    """mirror of Guards.upper_ok (forlit counts as a loop that may run zero times; the Coq value is
+    the reference wherever the program is inside the model grammar)"""
+    for i, s in enumerate(block):
+        k = s[0]
+        if k in ("break", "continue", "whiletrue"):
+            return False
+        if k in ("while", "for", "forlit") and s[-1]:
+            return False
+        if k == "try" and (s[4] or not (py_cc_b(s[1]) or not s[3])):
+            return False
+        if not all(py_upper_ok(b) for b in subblocks(s)):
+            return False
+        if not py_can_complete(s) and i < len(block) - 1:
             return False
     return True
 
@@ -613,6 +725,8 @@ def to_block(j):
             out.append((k, to_block(s[1]), to_block(s[2])))
         elif k in ("while", "for"):
             out.append((k, to_block(s[1]), to_block(s[2])))
+        elif k == "forlit":
+            out.append((k, s[1], to_block(s[-2]), to_block(s[-1])))
         elif k == "whiletrue":
             out.append((k, to_block(s[1])))
         elif k == "with":
@@ -634,6 +748,8 @@ def strip_ids(block):
             out.append((k, strip_ids(s[1]), strip_ids(s[2])))
         elif k in ("while", "for"):
             out.append((k, strip_ids(s[1]), strip_ids(s[2])))
+        elif k == "forlit":
+            out.append((k, s[1], strip_ids(s[-2]), strip_ids(s[-1])))
         elif k == "whiletrue":
             out.append((k, strip_ids(s[1])))
         elif k == "with":
@@ -686,6 +802,7 @@ def run(tier: str, replay: str | None = None):
             blocks.append(b)
             origin.append("corpus")
         n_rand, n_tidy, n_small = (900, 900, 300) if tier == "quick" else (7000, 7000, 484)
+        n_ext = 300 if tier == "quick" else 2500
         for b in small_exhaustive(n_small):
             blocks.append(b)
             origin.append("small")
@@ -695,11 +812,22 @@ def run(tier: str, replay: str | None = None):
         for i in range(n_tidy):
             blocks.append(tidy(gen_block(rng, rng.choice([2, 3, 3, 4]), False, maxlen=4)))
             origin.append("tidy")
+        for i in range(n_ext // 4):
+            blocks.append(gen_block(rng, rng.choice([2, 3]), False))
+            origin.append("global")
+        for i in range(n_ext):
+            b = gen_block(rng, rng.choice([2, 3, 3]), False)
+            if i % 2:
+                b = tidy(b)
+            blocks.append(extify(b, rng))
+            origin.append("ext")
 
     numbered = []
     funcs = []
     for i, b in enumerate(blocks):
-        nb, lines = render(b, f"f{i}")
+        nb, lines = render(b, f"f{i}", global_x=(origin[i] == "global"))
+        if origin[i] == "global":  # the declared-global variable is called gx in the source
+            lines = [re.sub(r"\bx\b", "gx", ln) for ln in lines]
         numbered.append(nb)
         funcs.append(lines)
 
@@ -711,7 +839,10 @@ def run(tier: str, replay: str | None = None):
     model_ok = proof is not None and not any("build failed" in x for x in proof.broken)
     try:
         lib.coq_make(["theories/Scopes/Guards.vo"])
-        model = model_run(numbered)
+        in_model = [in_model_grammar(nb) and origin[i] != "global" for i, nb in enumerate(numbered)]
+        sub = model_run([nb for nb, ok in zip(numbered, in_model) if ok])
+        it = iter(sub)
+        model = [next(it) if ok else None for ok in in_model]
     except RuntimeError as ex:
         rep.violation({"kind": "broken-correspondence", "correspondence": "Scopes.Analysis.analyse vs NameCheckVisitor (reveal_type, undefined_name, possibly_undefined_name)", "detail": str(ex)[-1500:]}, no_failing_input=True)
 
@@ -737,17 +868,24 @@ def run(tier: str, replay: str | None = None):
         kinds(nb, hist["kinds"])
         strict = dataflow(nb, "strict")
         liberal = dataflow(nb, "liberal")
-        m_uses, lo_ok, up_ok = model[i] if model is not None else ({}, None, None)
+        has_model = model is not None and model[i] is not None
+        lclass = lower_class(nb)
+        if has_model:
+            m_uses, lo_ok, up_ok = model[i]
+        else:  # outside the model grammar: oracle only, python mirrors of the guards
+            m_uses, lo_ok, up_ok = {}, lclass is None, py_upper_ok(nb)
+            hist["verdict"]["use outside the model grammar (bounds only)"] += len(list(all_uses(nb)))
         hist["lower_guard"][str(lo_ok)] += 1
         hist["upper_guard"][str(up_ok)] += 1
-        lclass = lower_class(nb)
-        if model is not None and (lclass is None) != bool(lo_ok):
+        if has_model and bool(up_ok) != py_upper_ok(nb):
+            rep.harness_error(f"Coq upper_ok={up_ok} but python mirror disagrees on {strip_ids(nb)}")
+        if has_model and (lclass is None) != bool(lo_ok):
             rep.harness_error(f"Coq lower_ok={lo_ok} but python class={lclass} on {strip_ids(nb)}")
         use_lines = [s for s in all_uses(nb)]
         if use_lines and size(nb) >= 3:
             distinct.add(repr(strip_ids(nb)))
         # spec validation by execution (a sample of programs)
-        if (i % (4 if tier == "quick" else 2) == 0) and use_lines:
+        if (i % (4 if tier == "quick" else 2) == 0) and use_lines and origin[i] != "global":
             try:
                 _, seen = executed_pairs(strip_ids(nb), rng, 24)
             except SyntaxError:
@@ -761,9 +899,18 @@ def run(tier: str, replay: str | None = None):
             for u in use_lines:
                 strict_total += len(strict.get(u, ()))
                 exec_strict_realised += len([d for d in strict.get(u, ()) if (u, d) in seen])
+        var_of = dict(uses_with_vars(nb))
         for u in use_lines:
             n_uses += 1
             rec = impl[i].get(u)
+            if origin[i] == "global":
+                # `global x` at the top of the function, the module defines x: x is not a local, so no
+                # flow-dependent diagnostic may appear for it; y stays an ordinary local but the
+                # reference analysis is not run for these functions (bounds checked elsewhere)
+                hist["verdict"]["use in a function declaring `global x`"] += 1
+                if var_of[u] == "x" and rec is not None and (rec["undef"] or rec["poss"]):
+                    failing.append((i, u, "a name declared global (and defined by the module) is reported (possibly) undefined", str(rec.get("text")), "no undefined_name / possibly_undefined_name"))
+                continue
             got = impl_set(rec)
             s_ = set(strict.get(u, set()))
             l_ = set(liberal.get(u, set()))
@@ -780,20 +927,20 @@ def run(tier: str, replay: str | None = None):
             if (rec["poss"] or rec["undef"]) != rec["un"]:
                 failing.append((i, u, "diagnostic and revealed Any[error] disagree", rec["text"], f"undef={rec['undef']} poss={rec['poss']}"))
             # correspondence
-            if model is not None:
+            if has_model:
                 mset = m_uses.get(u, set())
                 if mset != got:
                     corr_mismatch.append((i, u, sorted(got), sorted(mset)))
             # the property itself on the implementation
             if not s_ <= got:
-                if lclass is not None and (model is None or m_uses.get(u, set()) == got):
+                if lclass is not None and (not has_model or m_uses.get(u, set()) == got):
                     known_seen[lclass] += 1
                 else:
                     failing.append((i, u, "lower bound: a definition that reaches the use along a strict path is not reported", sorted(got), {"strict": sorted(s_), "missing": sorted(s_ - got)}))
             if not l_:
                 hist["verdict"]["use unreachable even in the liberal CFG (upper bound not applicable)"] += 1
             elif not got <= l_:
-                if up_ok is not None and not up_ok and (model is None or m_uses.get(u, set()) == got):
+                if up_ok is not None and not up_ok and (not has_model or m_uses.get(u, set()) == got):
                     known_seen[UPPER_FINDING[0]] += 1
                 else:
                     failing.append((i, u, "upper bound: a reported definition reaches the use along no liberal path", sorted(got), {"liberal": sorted(l_), "extra": sorted(got - l_)}))
@@ -844,6 +991,14 @@ def run(tier: str, replay: str | None = None):
         "coq_makefile + make theories/Properties/C09.vo; coqc theories/Properties/C09.v (Print Assumptions)" + ("; coqchk -o" if tier == "thorough" else ""),
         ["Coq 8.16.1 kernel (coqc; vm_compute for model evaluation and the witness lemmas)", "correspondence + oracle harness/c09.py", "CPython 3.12 as execution oracle for the path semantics"],
     )
+
+
+def uses_with_vars(block):
+    for s in block:
+        if s[0] == "use":
+            yield s[2], s[1]
+        for b in subblocks(s):
+            yield from uses_with_vars(b)
 
 
 def all_uses(block):
